@@ -144,12 +144,24 @@ def r4(R, repo):
     fw = [x for x in astu.func_calls(bd) if astu.src(x.func) == 'self.forward_rnn']
     bw = [x for x in astu.func_calls(bd) if astu.src(x.func) == 'self.backward_rnn']
     R.require(len(fw) == 1 and len(bw) == 1, '%s Bidirectional.__call__: forward / backward calls not found' % rel)
-    kf = {k.arg: astu.src(k.value) for k in fw[0].keywords}
-    kb = {k.arg: astu.src(k.value) for k in bw[0].keywords}
+    def _kws(call):
+      # explicit keywords plus the contents of a `**opts` whose definition `opts = dict(...)` is known
+      out = {k.arg: astu.src(k.value) for k in call.keywords if k.arg is not None}
+      if astu.has_star_kwargs(call):
+        sp = evid.splat_keywords(bd, call)
+        if sp is None:
+          return None
+        for k_, v_ in sp.items():
+          out.setdefault(k_, astu.src(v_))
+      return out
+    kf, kb = _kws(fw[0]), _kws(bw[0])
+    if kf is None or kb is None:
+      R.unsure(key_of(bd, 'backward RNN gets the same inputs, seq_lengths, time_major; reverse=True, keep_order=True'), (bd, bw[0]), 'keyword arguments passed through an unresolvable **mapping')
+      continue
     shared = ['seq_lengths', 'time_major', 'return_carry']
     ok = all(kf.get(k) == kb.get(k) and k in kf for k in shared) and kf.get('reverse') == 'False' and kb.get('reverse') == 'True' and kb.get('keep_order') == 'True' and \
         set(kb) - set(kf) <= {'keep_order'} and set(kf) <= set(kb) and astu.src(fw[0].args[0]) == astu.src(bw[0].args[0])
-    R.judge(not astu.has_star_kwargs(fw[0]) and not astu.has_star_kwargs(bw[0]) and bool(fw[0].args) and bool(bw[0].args) and all(k in kf for k in shared), ok, key_of(bd, 'backward RNN gets the same inputs, seq_lengths, time_major; reverse=True, keep_order=True'), (bd, bw[0]),
+    R.judge(bool(fw[0].args) and bool(bw[0].args) and all(k in kf for k in shared), ok, key_of(bd, 'backward RNN gets the same inputs, seq_lengths, time_major; reverse=True, keep_order=True'), (bd, bw[0]),
             'Bidirectional must call the backward RNN with the same inputs / seq_lengths / time_major as the forward one plus reverse=True, keep_order=True (forward %s, backward %s): without seq_lengths the backward pass consumes the padding first' % (sorted(kf), sorted(kb)))
   for name in ('flip_sequences', '_select_last_carry'):
     a, b = repo.func(LR, name), repo.func(NR, name)
